@@ -24,6 +24,7 @@ from hypothesis import strategies as st
 
 from vlib import markup
 from vlib.cham import run
+from vlib.fuzz import FuzzStage
 from vlib.harness import Check, Mismatch, Part, Stage, NCPU
 
 ALPHABET = '<>/!-?[]="\' a:&;'
@@ -355,7 +356,7 @@ CHECK = Check(
           "tokex: exhaustive enumeration of all strings over %r up to the "
           "tier's length bound" % ALPHABET),
     parts=[Tok(), Ident(), Island()],
-    stages=[TokExhaustive()],
+    stages=[FuzzStage("checks.c03", "tok", 60000), FuzzStage("checks.c03", "ident", 20000), TokExhaustive()],
     assumptions=[
         "documents contain no ${, no $$, no <!--! / <!--? comment and no "
         "template-namespace markup (outside the property's scope)",
